@@ -126,4 +126,5 @@ def run(ctx):
     # the command-line path (cmd/sign-bundle integrity-block): real binary, reused / pre-existing output files
     import c20
     c20.ib_cli_stage(ctx, rng, 6 if not thorough else 16)
+    c20.ib_strategy_stage(ctx, rng, 12 if not thorough else 48)
 
